@@ -320,7 +320,12 @@ def run_lines(binp, lines, args=(), env=None, timeout=3600):
     if env:
         e.update(env)
     notes = []
+    deaths = 0
     while i < len(lines):
+        if deaths >= 150:
+            # a tree on which the driver dies on (almost) every case: enough evidence, do not restart it thousands of times
+            outs += ["NOTRUN"] * (len(lines) - i)
+            break
         inp = ("\n".join(lines[i:]) + "\n").encode("latin-1")
         ee = dict(os.environ)
         ee.update(e)
@@ -335,6 +340,7 @@ def run_lines(binp, lines, args=(), env=None, timeout=3600):
         if p.returncode == 3 and got and got[-1] == "HANG":
             outs += got  # HANG is the observation of the case it hung on
             i += len(got)
+            deaths += 10   # a hang costs the watchdog time: allow fewer of them
             continue
         if p.returncode == 0:
             # fewer lines than cases without dying: protocol error
@@ -342,6 +348,7 @@ def run_lines(binp, lines, args=(), env=None, timeout=3600):
             break
         outs += got
         i += len(got)
+        deaths += 1
         if i < len(lines):
             err = p.stderr.decode("latin-1", "replace")
             kind = "CRASH(%d)" % p.returncode
@@ -594,7 +601,7 @@ def run_check(chk, tier, replay=None):
                 sigs.add(chk.signature(c, mo_n, io_n))
             if len(samples) < 3 and cat not in ("corpus",) and chk.nontrivial(c, mo_n, io_n) and (evaluations < 50 or rng.random() < 0.01 or len(lines) - len(samples) < 5):
                 samples.append(dict(case=c, model=mo_n[:400], impl=io_n[:400]))
-            if mo_n != io_n:
+            if mo_n != io_n and io != "NOTRUN":
                 diffs.append((c, mo_n, io_n))
         if not samples and cases:
             c = cases[0][0]
